@@ -41,6 +41,11 @@ theorem gen_notifySendHasDefault : Gen.Netstate.notifySendHasDefault = true := b
 /-- the channels are closed in `Watch`'s deferred func, under `w.mu.Lock` -/
 theorem gen_closeUnderLockInDefer : Gen.Netstate.closeUnderLockInDefer = true := by decide
 
+/-- `notify` takes the Watcher's lock exactly once: no recursive read lock, which would deadlock
+    against a concurrent `Subscribe` (the only part of "subscribing concurrently with notification
+    is safe" that is visible in the source text; the rest is the Go memory model) -/
+theorem gen_notify_no_nested_lock : Gen.Netstate.notifyNestedLock = false := by decide
+
 /-- the condition under which `notify` skips a subscription bucket -/
 theorem gen_notifyMaskTest : Gen.Netstate.notifyMaskTest = "k & change == 0" := by decide
 
